@@ -195,10 +195,7 @@ func genNames(w *World) []byte {
 			continue
 		}
 		d := describeNames(f)
-		if len(d.Params)+len(d.Frees)+len(d.Allocs)+len(d.Phis) == 0 {
-			continue
-		}
-		t[k] = d
+		t[k] = d // every function is listed: absence from the table means "introduced later"
 		keys = append(keys, k)
 	}
 	sort.Strings(keys)
